@@ -340,3 +340,92 @@ func (h *svcHarness) applyLater() {
 	}
 	c17Later = nil
 }
+
+// VerifC17CommandOnDying: the service is online with subscriptions a and b; the connection
+// dies and at the same moment the application issues an Unsubscribe(b) or a Subscribe(c).
+// Whichever way the race between the dispatcher and the dying client goes - the command is
+// taken by the dispatcher and fails on the dead connection (future cancelled), or it stays
+// queued and is carried out on the next connection - every later reconnect re-establishes
+// exactly the set resulting from all calls made so far.
+func VerifC17CommandOnDying() {
+	h := &svcHarness{F: 0}
+	h.d = &vDialer{}
+	for i := 0; i < 6; i++ {
+		h.d.conns = append(h.d.conns, newVConn(false))
+	}
+	h.d.refuse = func() bool { return false }
+	s := NewService(4)
+	h.s = s
+	cfg := NewConfigWithClientID("mqtt://broker", "svc")
+	cfg.CleanSession = false
+	cfg.KeepAlive = "0s"
+	cfg.Dialer = h.d
+	vAssert(s.Start(cfg), "Start")
+	s.Subscribe("a", 0)
+	s.Subscribe("b", 1)
+	vAssert(h.goOnline(), "online")
+	c := h.conn
+	vQuiesce()
+	vAssert(c.sentCount() == h.seen+2, "both subscribe commands are carried out")
+	for k := h.seen; k < c.sentCount(); k++ {
+		sub, ok := c.sentAt(k).(*packet.Subscribe)
+		vAssert(ok, "a SUBSCRIBE per command")
+		if ok {
+			c.in <- &packet.Suback{ID: sub.ID, ReturnCodes: []packet.QOS{sub.Subscriptions[0].QOS}}
+			vQuiesce()
+		}
+	}
+	h.modelSet("a", 0)
+	h.modelSet("b", 1)
+	before := c.sentCount()
+	// the connection dies; the application issues a command at the same moment
+	c.Close()
+	kind := vChoice("command", 2)
+	var f GenericFuture
+	if kind == 0 {
+		f = s.Unsubscribe("b")
+	} else {
+		f = s.Subscribe("c", 0)
+	}
+	apply := func() {
+		if kind == 0 {
+			h.modelDel("b")
+		} else {
+			h.modelSet("c", 0)
+		}
+	}
+	vQuiesce()
+	handled := futureState(f) == "canceled" || c.sentCount() > before
+	if handled {
+		vCover("c17-dying-handled")
+		apply() // the dispatcher took the command: the call counts, although it could not be carried out
+	}
+	vAssert(h.goOnline(), "the service reconnects and re-establishes the current set")
+	c2 := h.conn
+	vQuiesce()
+	if !handled {
+		vCover("c17-dying-queued")
+		vAssert(c2.sentCount() == h.seen+1, "the queued command is carried out once online")
+		if c2.sentCount() == h.seen+1 {
+			id, _ := packet.GetID(c2.sentAt(h.seen))
+			if kind == 0 {
+				_, ok := c2.sentAt(h.seen).(*packet.Unsubscribe)
+				vAssert(ok, "as an UNSUBSCRIBE")
+				c2.in <- &packet.Unsuback{ID: id}
+			} else {
+				_, ok := c2.sentAt(h.seen).(*packet.Subscribe)
+				vAssert(ok, "as a SUBSCRIBE")
+				c2.in <- &packet.Suback{ID: id, ReturnCodes: []packet.QOS{0}}
+			}
+			vQuiesce()
+			vAssert(futureState(f) == "done", "and its future completes")
+		}
+		apply()
+	}
+	// one more connection loss: the resubscription is exactly the resulting set
+	c2.Close()
+	vAssert(h.goOnline(), "the service reconnects again with exactly the resulting set")
+	vAssert(s.Stop(true), "Stop returns")
+	vAssert(vLive() == 0, "no goroutine of the service is left after Stop")
+	vCover("c17-dying-end")
+}
